@@ -151,18 +151,64 @@ theorem no_panic_disciplined (cfg : Cfg) (hc : cfg.Sane) (w : World) (h : ReachD
       exact this
   exact key.2.2
 
+/-- concrete configuration and histories of the two findings -/
+def cfgD : Cfg :=
+  { maxPubs := 2, maxSubs := 1, bufMax := 1, hist := 0, borrowMax := 1, overflow := false, expired := 1 }
+
+def opsBorrow : List Op :=
+  [.csub 0 none none, .cpub 0 1, .cpub 1 1, .loan 0 0, .send 0 0 1, .loan 1 1, .send 1 1 2, .recv 0, .recv 0]
+
+def opsPanic : List Op := opsBorrow ++ [.dpub 0, .updS 0, .dpub 1, .updS 0]
+
+/-- no state before the end of the history has panicked -/
+def allNP (w : World) : List Op → Bool
+  | [] => true
+  | op :: r => !w.panicked && allNP (step w op).1 r
+
+theorem reach_run (c : Cfg) : ∀ (ops : List Op) (w : World), Reach c w → allNP w ops = true → Reach c (run w ops)
+  | [], w, h, _ => h
+  | op :: r, w, h, hnp => by
+    simp only [allNP, Bool.and_eq_true, Bool.not_eq_true'] at hnp
+    exact reach_run c r _ (.step op h hnp.1) hnp.2
+
+set_option maxRecDepth 100000 in
 /-- FALSE without discipline (findings D19/D20): the borrow limit is enforced per connection, so a
 subscriber can hold samples of more dead publishers than the expired-connection buffer has room
 for, and `update_connections` panics.  Prove with a concrete history. -/
 theorem panic_reachable_undisciplined :
     ∃ (cfg : Cfg) (ops : List Op), cfg.Sane ∧ (run (World.init cfg) ops).panicked = true := by
-  sorry
+  refine ⟨cfgD, opsPanic, by decide, ?_⟩
+  decide
 
+set_option maxRecDepth 100000 in
 /-- … and the per-subscriber borrow limit can be exceeded (D19): concrete history in which a live
 subscriber holds more than `borrowMax` samples and no call was refused. -/
 theorem borrow_limit_is_per_connection :
     ∃ (cfg : Cfg) (w : World), cfg.Sane ∧ Reach cfg w ∧ w.panicked = false ∧
       ∃ s S, getS w s = some S ∧ S.alive = true ∧ cfg.borrowMax < S.held.length := by
-  sorry
+  refine ⟨cfgD, run (World.init cfgD) opsBorrow, by decide, reach_run cfgD _ _ .init (by decide), by decide, 0, ?_⟩
+  have hS : (getS (run (World.init cfgD) opsBorrow) 0).isSome = true := by decide
+  obtain ⟨S, hS'⟩ := Option.isSome_iff_exists.mp hS
+  refine ⟨S, hS', ?_, ?_⟩
+  · have : ((getS (run (World.init cfgD) opsBorrow) 0).map (·.alive)) = some true := by decide
+    rw [hS'] at this
+    simpa using this
+  · have : ((getS (run (World.init cfgD) opsBorrow) 0).map (·.held.length)) = some 2 := by decide
+    rw [hS'] at this
+    simp at this
+    show 1 < S.held.length
+    omega
 
 end Iox2.PubSub.C08
+
+#print axioms Iox2.PubSub.C08.loan_never_out_of_memory
+#print axioms Iox2.PubSub.C08.probe_never_out_of_memory
+#print axioms Iox2.PubSub.C08.loan_ok_iff
+#print axioms Iox2.PubSub.C08.completion_queue_never_full
+#print axioms Iox2.PubSub.C08.release_succeeds
+#print axioms Iox2.PubSub.C08.cpub_ok_iff
+#print axioms Iox2.PubSub.C08.csub_ok_iff
+#print axioms Iox2.PubSub.C08.registry_within_limits
+#print axioms Iox2.PubSub.C08.no_panic_disciplined
+#print axioms Iox2.PubSub.C08.panic_reachable_undisciplined
+#print axioms Iox2.PubSub.C08.borrow_limit_is_per_connection
